@@ -957,6 +957,36 @@ class C14(Prop):
                                data=dict(kind=j[0], detail=j[1], tag=tag, index=idx, seed=ctx.seed, tier=ctx.tier, complex=cm,
                                          integrand=str(e)[:600], form=str(form)[:600], options=opts,
                                          directed=tag.split(":", 1)[1] if tag.startswith("directed:") else None)))
+        # the verdict on a form does not depend on which forms were checked before: a lower-arity form first, then a form of higher arity
+        # that contains the structurally SAME integrand on another subdomain (that form is not multilinear in all its arguments)
+        import ufl
+        from utils import LagrangeElement
+        nh = 0
+        for cplx_h in (False, True):
+            mesh = ufl.Mesh(LagrangeElement(ufl.triangle, 1, (2,)))
+            Vh = ufl.FunctionSpace(mesh, LagrangeElement(ufl.triangle, 1))
+            fh, gh = ufl.Coefficient(Vh), ufl.Coefficient(Vh)
+            vh, uh = ufl.TestFunction(Vh), ufl.TrialFunction(Vh)
+            cj = ufl.conj if cplx_h else (lambda z: z)
+            seqs = [(fh * cj(vh) * ufl.dx(domain=mesh), uh * cj(vh) * gh * ufl.dx(domain=mesh, subdomain_id=1) + fh * cj(vh) * ufl.dx(domain=mesh, subdomain_id=2)),
+                    (fh * gh * ufl.dx(domain=mesh), fh * gh * ufl.dx(domain=mesh, subdomain_id=1) + gh * cj(vh) * ufl.dx(domain=mesh, subdomain_id=2))]
+            for first, second in seqs:
+                from ufl.algorithms import compute_form_data
+                try:
+                    compute_form_data(first, complex_mode=cplx_h)
+                except BaseException:  # noqa
+                    continue
+                nh += 1
+                try:
+                    compute_form_data(second, complex_mode=cplx_h)
+                    accepted = True
+                except BaseException:  # noqa  (ArityMismatch derives from BaseException)
+                    accepted = False
+                if accepted and "C14:history" not in seen:
+                    seen.add("C14:history")
+                    out.append(Witness(what="a form one of whose integrands lacks one of the form's arguments is accepted after a lower-arity form with the same integrand was checked :: " + str(second)[:200],
+                                       key="C14:history:accepted-after-lower-arity-form", data=dict(kind="history", seed=ctx.seed, tier=ctx.tier, complex=cplx_h, form=str(second)[:400])))
+        ev.cov["oracle_history_sequences"] = nh
         ev.cov["oracle_accepted_integrands_checked"] = checked
         ev.cov["oracle_inconclusive"] = inconclusive
         ev.cov["oracle_inconclusive_reasons"] = reasons
